@@ -23,7 +23,15 @@
 (*   a trajectory prediction may carry its own shape (pred.shape, after `prediction.shape = ...`)        *)
 (*   modification m (HISTORY dimension: the contract holds for the CURRENT data of the obstacle):         *)
 (*            [k |-> "move", via, id, tx, ty, q]  translate by (tx, ty), then rotate by q quarter turns   *)
-(*                 about the origin; via in {"obstacle", "scenario", "prediction"}; id = 0: all obstacles *)
+(*                 about the origin; via in {"obstacle", "scenario", "prediction", "trajectory"}; id = 0: *)
+(*                 all obstacles.  An optional field share in {"states", "shape", "occs"} says that the    *)
+(*                 SECOND obstacle of the case was built from the same state list / Shape / occupancy     *)
+(*                 list OBJECT as the moved one.  The statement does not promise that such an obstacle   *)
+(*                 stays where it was; it promises INTERNAL CONSISTENCY of its answers with its CURRENT    *)
+(*                 primary data, which the harness reads back through public accessors:                    *)
+(*            [k |-> "observed", id, init, shape, pred]  pred.states as read from trajectory.state_list,   *)
+(*                 pred.shape from prediction.shape, set-based: pred.occs = <<[t, region]>> with the       *)
+(*                 currently stored region (occupancy_set) in the logged lattice form                      *)
 (*            [k |-> "set_trajectory", id, states] | [k |-> "set_shape", id, shape]                        *)
 (*            [k |-> "update_prediction", id, pred] | [k |-> "set_prediction", id, pred] (assignment)      *)
 (*            [k |-> "update_initial_state", id, state, pred]  the obstacle is advanced to a new initial  *)
@@ -94,11 +102,17 @@ SrcState(o, t) ==      \* the state the occupancy at t is derived from (NoneV fo
          [] OTHER -> NoneV
 IsUncertain(o, t) == SrcState(o, t).k = "state" /\ SrcState(o, t).unc # "none"
 
+NormRegion(r) ==       \* a region in the logged form (sequences) -> the form of Placed (sets)
+    CASE r.k \in {"rect", "poly"} -> [k |-> "poly", vs |-> {<<r.vs[i][1], r.vs[i][2]>> : i \in DOMAIN r.vs}]
+      [] r.k = "disc"  -> [k |-> "disc", c |-> <<r.c[1], r.c[2]>>, r2 |-> r.r2]
+      [] r.k = "group" -> [k |-> "group", parts |-> {{<<r.parts[i][j][1], r.parts[i][j][2]>> : j \in DOMAIN r.parts[i]} : i \in DOMAIN r.parts}]
+      [] OTHER -> [k |-> "other"]
+StoredRegion(c) == IF "region" \in DOMAIN c THEN NormRegion(c.region) ELSE Placed(c.shape, c.pose)
 PredShape(o) == IF o.pred.k = "traj" /\ "shape" \in DOMAIN o.pred THEN o.pred.shape ELSE o.shape
 Occ(o, t) ==           \* expected occupancy for exact states
     LET s == Source(o, t)
     IN CASE s.k = "None"   -> NoneV
-         [] s.k = "SetOcc" -> Placed(o.pred.occs[s.i].shape, o.pred.occs[s.i].pose)     \* the stored occupancy
+         [] s.k = "SetOcc" -> StoredRegion(o.pred.occs[s.i])                            \* the stored occupancy
          [] s.k = "Traj"   -> Placed(PredShape(o), PoseOf(SrcState(o, t)))
          [] OTHER          -> Placed(o.shape, PoseOf(SrcState(o, t)))
 
@@ -134,7 +148,7 @@ MovePred(m, pr) ==
       [] pr.k = "set"  -> [pr EXCEPT !.occs = [i \in DOMAIN pr.occs |-> MoveStored(m, pr.occs[i])]]
       [] OTHER -> pr
 MoveObstacle(o, m) ==
-    IF m.via = "prediction" \/ o.role = "phantom" THEN [o EXCEPT !.pred = MovePred(m, @)]       \* the initial state stays
+    IF m.via \in {"prediction", "trajectory"} \/ o.role = "phantom" THEN [o EXCEPT !.pred = MovePred(m, @)]       \* the initial state stays
     ELSE [o EXCEPT !.init = MoveState(m, @), !.pred = MovePred(m, @)]
 RePred(pr, t0) ==      \* the gap is a derived quantity: first step of the prediction relative to the (new) initial step
     CASE pr.k = "traj" -> [pr EXCEPT !.g = pr.states[1].t - t0 - 1]
@@ -146,6 +160,7 @@ Modify(o, m) ==
       [] m.k = "set_shape" -> [o EXCEPT !.pred = [k |-> "traj", g |-> o.pred.g, states |-> o.pred.states, shape |-> m.shape]]
       [] m.k \in {"update_prediction", "set_prediction"} -> [o EXCEPT !.pred = RePred(m.pred, o.t0)]
       [] m.k = "update_initial_state" -> [o EXCEPT !.t0 = m.state.t, !.init = m.state, !.pred = RePred(m.pred, m.state.t)]
+      [] m.k = "observed" -> [o EXCEPT !.t0 = m.init.t, !.init = m.init, !.shape = m.shape, !.pred = RePred(m.pred, m.init.t)]
       [] m.k = "set_initial_state" -> [o EXCEPT !.t0 = m.state.t, !.init = m.state, !.pred = RePred(@, m.state.t)]
 Targets(o, m) == m.id = 0 \/ m.id = o.id
 ModifyS(S, m) == [i \in DOMAIN S |-> IF Targets(S[i], m) THEN Modify(S[i], m) ELSE S[i]]
@@ -166,7 +181,8 @@ Centre(o, t) ==        \* where the obstacle is at t: the position of the state 
     LET s == Source(o, t)
     IN CASE s.k = "None" -> NoneV
          [] s.k = "Env" -> IF o.shape.k = "group" THEN [k |-> "EITHER"] ELSE [k |-> "at", p |-> <<o.init.x, o.init.y>>]
-         [] s.k = "SetOcc" -> IF o.pred.occs[s.i].shape.k = "group" THEN [k |-> "EITHER"]    \* a group has no centre: statement silent
+         [] s.k = "SetOcc" -> IF "region" \in DOMAIN o.pred.occs[s.i] THEN [k |-> "EITHER"]   \* observed region: no pose recorded
+                              ELSE IF o.pred.occs[s.i].shape.k = "group" THEN [k |-> "EITHER"]    \* a group has no centre: statement silent
                               ELSE [k |-> "at", p |-> <<o.pred.occs[s.i].pose[1], o.pred.occs[s.i].pose[2]>>]
          [] OTHER -> IF SrcState(o, t).unc \in {"pos", "both"} THEN [k |-> "EITHER"]
                      ELSE [k |-> "at", p |-> <<SrcState(o, t).x, SrcState(o, t).y>>]
